@@ -6,6 +6,7 @@ package PKGNAME
 //   - natively (replay of a solver model through `go test -overlay`) the bodies read the model table.
 
 import (
+	"math"
 	"encoding/json"
 	"errors"
 	"fmt"
@@ -270,3 +271,9 @@ func zzLogLevel(name string) {
 		zzLevelSet(int8(zzModel[name]))
 	}
 }
+
+// zzConc: under gosmt, case split over every feasible value of x (at most max); natively the identity.
+func zzConc(x uint64, max int) uint64 { return x }
+
+func zzF32bits(f float32) uint32 { return math.Float32bits(f) }
+func zzF64bits(f float64) uint64 { return math.Float64bits(f) }
